@@ -19,9 +19,9 @@ CLAIMED = {
    note="Budgets are the manager's own quantised per-block targets; drift against the configured rate (F9) and reservoirs < 7 bits with both limits (F12) are genuine, recorded known findings. The average floater (double arithmetic) is an oracle parameter (only rint(avgfloat) enters). Trusted: Lean kernel, harness reading private structs through codec_internal.h.",
    tech="Lean 4 proof (invariant by induction over block sequences) + differential replay of the real rate manager"),
  "C04": dict(cat="proof", ref="§8 C04",
-   text="Kernel-checked: for every block-size pair, every N >= 0 and every packet sequence of the encoder's shape (predicate Coherent: any short/long mix, first packet at 0, last packet = granule N + EOS) and every pattern of granule positions hidden by Ogg paging, the decoder model delivers exactly N samples and nothing from the first packet (C04_decode_total, C04_first_zero); encoder single-step facts (EOS block carries the clamped granule; over-submission refused). Encoder and decoder bookkeeping models are replayed call-by-call against the real vorbis_analysis_buffer/wrote/blockout and vorbis_synthesis_blockin over N in {0,1,...,10^6}, all partitions, 24 configurations; the very predicate Coherent is evaluated (decide) on every real packet trace.",
-   note="PARTIAL: 'every drained encoder run is Coherent' is not yet a theorem (C04_main_partial): it is validated on every generated trace by evaluating the theorem's hypothesis on the real encoder's packets. _ve_envelope_search is an oracle parameter. vorbisfile's ov_pcm_total is checked by the oracle here and modelled under C09. Trusted: Lean kernel, harness, extract.py.",
-   tech="Lean 4 proof (induction over packet sequences, decoder count model) + call-by-call differential replay of encoder/decoder bookkeeping"),
+   text="Kernel-checked end to end on the model (C04_main): for all block sizes 4<=bs0<=bs1, every sequence of buffer/wrote/blockout calls in any order and sizes (over-submissions refused), every answer sequence of the envelope search, one end-of-input call and any draining calls: the packets handed out are mids++[last], last carries EOS (the only one) and granule position N = samples accepted, and for every visibility pattern of intermediate granule positions (Ogg paging) the decoder model delivers exactly N samples in total and none from the first packet; N=0 and N smaller than a block included. Plus drain progress (3*bs1 padding always suffices). Encoder and decoder bookkeeping models are replayed call-by-call against the real vorbis_analysis_buffer/wrote/blockout and vorbis_synthesis_blockin (N in {0,1,...,10^6}, all partitions, 24 configurations, 4 paging modes); the predicate Coherent is also evaluated on every real packet trace.",
+   note="_ve_envelope_search is an oracle parameter (theorems quantify over all answers). vorbisfile's ov_pcm_total / streaming read totals are checked by the oracle here and modelled under C09/C10. Trusted: Lean kernel, the hand model as far as the call-by-call replay exercises it, harness, extract.py.",
+   tech="Lean 4 proof (invariant by induction over API call sequences + induction over packet sequences) + call-by-call differential replay"),
 }
 
 NA_REASON = "not yet built in this round: model/theorems for this property are not in the tree yet (see DESIGN.md §8 for the plan)"
